@@ -137,4 +137,45 @@ def evalsAfterSet : List TStep → Nat
   | .setTC :: rest => (rest.filter (fun a => a == .evalFixed || a == .evalCache)).length
   | _ :: rest => evalsAfterSet rest
 
+/-! ## CForest's solution monitor: `CForest::newSolutionFound`
+
+Every planner instance reports improved solutions from its own worker thread.  As written, the whole report —
+compare with the best cost so far, and if better: count it, store the cost, collect the states — happens under
+`newSolutionFoundMutex_`: one step (`report c`).  The check-then-act shape (compare without the mutex, update under it
+without comparing again) is `cmp t c` · `act t c`.  Costs are naturals, `none` is the infinite initial cost;
+`hist` records every value `bestCost_` takes. -/
+
+structure MStore where
+  best : Option Nat
+  shared : Nat            -- numPathsShared_
+  hist : List Nat         -- the successive values of bestCost_
+  reg : Nat → Bool        -- per thread: outcome of its unlocked comparison
+
+def MStore.init : MStore := ⟨none, 0, [], fun _ => false⟩
+
+def betterThan (c : Nat) : Option Nat → Bool
+  | none => true
+  | some b => decide (c < b)
+
+inductive MStep where
+  | report (c : Nat)            -- lock; if better: count, store; unlock
+  | cmp (t : Nat) (c : Nat)     -- unlocked comparison by thread t
+  | act (t : Nat) (c : Nat)     -- lock; count, store (if the earlier comparison said "better"); unlock
+deriving DecidableEq, Repr
+
+def MStep.apply : MStep → MStore → MStore
+  | .report c, s =>
+    if betterThan c s.best then { s with best := some c, shared := s.shared + 1, hist := s.hist ++ [c] } else s
+  | .cmp t c, s => { s with reg := fun u => if u = t then betterThan c s.best else s.reg u }
+  | .act t c, s =>
+    if s.reg t then { s with best := some c, shared := s.shared + 1, hist := s.hist ++ [c] } else s
+
+/-- thread `i` reports the costs `css[i]` in order -/
+def reportThreads (monitor : Bool) (css : List (List Nat)) : List (List MStep) :=
+  let rec go : Nat → List (List Nat) → List (List MStep)
+    | _, [] => []
+    | t, cs :: rest =>
+      (if monitor then cs.map MStep.report else (cs.map (fun c => [MStep.cmp t c, MStep.act t c])).flatten) :: go (t + 1) rest
+  go 0 css
+
 end OmplModel.Interleave
